@@ -22,6 +22,10 @@ def h(b):
     return hashlib.sha1(b).hexdigest()[:12]
 
 
+def nr_randn(nr, n):
+    return 1j * nr.randn(n, n)
+
+
 def snap_wfn(w):
     parts = []
     for key in sorted(w.sectors()):
@@ -180,6 +184,18 @@ def run(ctx):
         mk_d = (lambda a=hd.copy(): fqe.get_diagonal_hamiltonian(a.copy()))
         makers[add("ham", mk_r())] = mk_r
         makers[add("ham", mk_d())] = mk_d
+        # a quadratic restricted Hamiltonian whose matrix is Hermitian only up to rounding (Q diag Q^dagger, as any
+        # transformed one-body matrix is): the closed-form evolution must not write a cleaned-up matrix back
+        nq_ = numpy.random.RandomState(rng.randrange(2 ** 31))
+        qm, _ = numpy.linalg.qr(nq_.randn(norb, norb) + nr_randn(nq_, norb))
+        hq = qm @ numpy.diag(nq_.uniform(-1.0, 1.0, norb)) @ qm.conj().T
+        mk_q = (lambda a=hq.copy(): fqe.get_restricted_hamiltonian((a.copy(),), e_0=0.25))
+        makers[add("ham", mk_q())] = mk_q
+        # a diagonal-Coulomb Hamiltonian (closed-form route in time_evolve, rebuilt generator in the Taylor route)
+        vdc = numpy.array([[float(rng.randint(-2, 2)) for _ in range(norb)] for _ in range(norb)]) / 2
+        vdc = (vdc + vdc.T) / 2
+        mk_c = (lambda a=vdc.copy(): fqe.get_diagonalcoulomb_hamiltonian(a.copy(), e_0=0.5))
+        makers[add("ham", mk_c())] = mk_c
         op = C01.random_fermionop(rng, norb, FermionOperator, True, True, 2)
         if len(op.terms) == 0:
             op = FermionOperator(((0, 1), (0, 0)), 1.0)
@@ -237,7 +253,9 @@ def run(ctx):
                 if kind == "apply":
                     thunk = (lambda a=pool[i][1], b=pool[hm][1]: a.apply(b))
                 elif kind == "evolve":
-                    if type(pool[hm][1]).__name__ == "RestrictedHamiltonian":
+                    cname_ = type(pool[hm][1]).__name__
+                    if (cname_ == "RestrictedHamiltonian" and not pool[hm][1].quadratic()) or \
+                            (cname_ == "DiagonalCoulomb" and rng.random() < 0.6):
                         thunk = (lambda a=pool[i][1], b=pool[hm][1]: a.apply_generated_unitary(0.01, "taylor", b, accuracy=1e-10))
                     else:
                         thunk = (lambda a=pool[i][1], b=pool[hm][1]: a.time_evolve(0.1, b))
